@@ -10,6 +10,7 @@ justified by the `yield-step` obligations generated here."""
 from __future__ import annotations
 import ast
 import z3
+from .qa import ForAll as QForAll
 from . import ty
 from .spec import FnContract, parse_expr
 
